@@ -34,7 +34,7 @@ for i in ids:
         na.append({"property_id": i, "reason": NOT_APPLICABLE.get(i, PENDING)})
 m = {
     "version": 1,
-    "setup_cmd": "cd /verif/govc && cp -f /repo/go.sum . && GOFLAGS=-mod=mod GOPROXY=off GOSUMDB=off GOTOOLCHAIN=local go build -o /verif/bin/govc ./cmd/govc",
+    "setup_cmd": "cd /verif/govc && GOFLAGS=-mod=mod GOPROXY=off GOSUMDB=off GOTOOLCHAIN=local go build -o /verif/bin/govc ./cmd/govc",
     "hooks": {
         "guard": "verif",
         "enable": "-tags verif (govc loads /repo with this tag; the guarded files contain comments only)",
